@@ -867,13 +867,22 @@ def envelope_reader_rules(m: Bf3Model, chk, pid):
     where = "%s:%d" % (fi.file, fi.lineno)
     T = SPEC["text"]
     ok, why = True, ""
-    loops = [lr for lr in ex.loops.values() if lr.kind == "while"]
+    # two spellings of "one readline() per iteration until the separator line":
+    #   line = f.readline(); while line != SEP: ...; line = f.readline()        and        for line in iter(f.readline, SEP): ...
+    loops = [lr for lr in ex.loops.values() if lr.kind in ("while", "for") and not getattr(lr, "comp_kind", None)]
     lr = loops[0] if len(loops) == 1 else None
+    lv = None
     if lr is None:
-        ok, why = False, "comment block is not parsed by a single while loop"
-    if ok:
+        ok, why = False, "comment block is not parsed by a single loop"
+    elif lr.kind == "for":
+        it = unsnap(lr.iter)
+        a = it.args[1] if it.op == "call" and isinstance(it.args[0], Term) and it.args[0].op == "builtin" and it.args[0].args[0] == "iter" else ()
+        if not (len(a) == 2 and unsnap(a[0]).op == "attr" and unsnap(a[0]).args[1] == "readline" and is_const(a[1]) and cval(a[1]) == T["separator"]):
+            ok, why = False, "comment loop is not `for line in iter(<file>.readline, %r)` (iterates %s)" % (T["separator"], show(lr.iter, 4))
+        else:
+            lv = unsnap(lr.target)
+    if ok and lr.kind == "while":
         r = rel(lr.cond, True) if lr.cond is not None else None
-        lv = None
         if r and r[0] == "rel" and r[1] == "NotEq":
             for x, y in ((r[2], r[3]), (r[3], r[2])):
                 if x.op == "loopvar" and is_const(y) and cval(y) == T["separator"]:
